@@ -17,9 +17,13 @@ pub mod instr;
 #[cfg(kani)]
 pub mod c14_determinism;
 #[cfg(kani)]
+pub mod c15_cost;
+#[cfg(kani)]
 pub mod c16_stack;
 #[cfg(kani)]
 pub mod c17_buffer;
+#[cfg(kani)]
+pub mod c00_sanity;
 #[cfg(kani)]
 pub mod c02_run;
 #[cfg(kani)]
